@@ -185,6 +185,8 @@ func runFuzz19(w *bufio.Writer, id int, seed int64) (fails int) {
 	}
 	path := filepath.Join(dir, target)
 	switch {
+	case kind == 0 && r.Intn(2) == 0 && mutateIndexEntry(r, path, &what):
+		// (done: one entry of one field index now holds the value of another entry, or two neighbours are swapped)
 	case kind == 6: // stray entries
 		switch r.Intn(6) {
 		case 0:
@@ -355,6 +357,66 @@ func runFuzz19(w *bufio.Writer, id int, seed int64) (fails int) {
 	}
 	fmt.Fprintf(w, "fuzz %d mutation=%s %s\n", id, what, strings.Join(sb, " "))
 	return
+}
+
+// mutateIndexEntry: ONE entry of ONE field index of schema.json gets the value of another entry of that index
+// (the last entry half of the time, the first one, any), or two neighbours trade places: the index is no
+// longer ordered at exactly one place; everything else in the file is intact
+func mutateIndexEntry(r *rand.Rand, path string, what *string) bool {
+	raw, err := os.ReadFile(path)
+	if err != nil {
+		return false
+	}
+	dec := json.NewDecoder(bytes.NewReader(raw))
+	dec.UseNumber()
+	var top map[string]interface{}
+	if dec.Decode(&top) != nil {
+		return false
+	}
+	index, _ := top["index"].(map[string]interface{})
+	fidx, _ := index["fields"].(map[string]interface{})
+	var names []string
+	for k, v := range fidx {
+		fi, _ := v.(map[string]interface{})
+		if ents, _ := fi["index"].([]interface{}); len(ents) >= 2 {
+			names = append(names, k)
+		}
+	}
+	if len(names) == 0 {
+		return false
+	}
+	sort.Strings(names)
+	fi := fidx[names[r.Intn(len(names))]].(map[string]interface{})
+	ents := fi["index"].([]interface{})
+	pos := len(ents) - 1
+	switch r.Intn(4) {
+	case 0:
+		pos = 0
+	case 1:
+		pos = r.Intn(len(ents))
+	}
+	if r.Intn(4) == 0 {
+		q := pos - 1
+		if q < 0 {
+			q = 1
+		}
+		ents[pos], ents[q] = ents[q], ents[pos]
+		*what = fmt.Sprintf("index-entry:swap:%d/%d", pos, len(ents))
+	} else {
+		other := r.Intn(len(ents))
+		if other == pos {
+			other = (pos + 1) % len(ents)
+		}
+		tp, _ := ents[pos].([]interface{})
+		to, _ := ents[other].([]interface{})
+		if len(tp) != 2 || len(to) != 2 {
+			return false
+		}
+		ents[pos] = []interface{}{to[0], tp[1]}
+		*what = fmt.Sprintf("index-entry:value:%d<-%d/%d", pos, other, len(ents))
+	}
+	nb, _ := json.Marshal(top)
+	return os.WriteFile(path, nb, 0600) == nil
 }
 
 func max0(a, b int) int {
